@@ -93,3 +93,66 @@ modelled! {
         std::mem::forget(it); std::mem::forget(decls); std::mem::forget(defs); std::mem::forget(report); std::mem::forget(ast);
     }
 }
+
+// ---------------------------------------------------------------- C01-c address of a position
+
+/// The address a label, `$` or an instruction gets at bank position `pos`:
+/// start + pos / unit; a position inside an address unit is an error unless guessing is allowed.
+fn address_of_position<const UNIT: usize>() {
+    reset_report_model();
+    let mut report = diagn::Report::new();
+    let mut defs = asm::defs::init();
+    let start: i32 = kani::any();
+    let pos: usize = kani::any();
+    kani::assume(pos < (1usize << 40));
+    let outp: Option<usize> = if kani::any() { let o: usize = kani::any(); kani::assume(o < (1usize << 40)); Some(o) } else { None };
+    let can_guess: bool = kani::any();
+    defs.bankdefs.define(util::ItemRef::new(0), bank(0, UNIT, start as i64, None, outp, false));
+    let bd = asm::resolver::BankData { cur_position: pos };
+    let ctx = rctx(&bd, 0, false, !can_guess);
+    let want = start as i64 + (pos / UNIT) as i64;
+    let aligned = pos % UNIT == 0;
+    // eval_address (labels, `$`)
+    let r = ctx.eval_address(&mut report, sp(), &defs, can_guess);
+    match r {
+        Ok(ref a) => {
+            assert!(aligned || can_guess, "address of a position inside an address unit accepted without guessing");
+            assert!(a.maybe_into::<i64>() == Some(want), "address is not start + position / unit");
+            assert!(msgs(&report) == 0);
+        }
+        Err(()) => {
+            assert!(!aligned && !can_guess, "aligned position rejected");
+            assert!(errs(&report) > 0, "Err without an error diagnostic");
+        }
+    }
+    // get_address (output spans, instructions)
+    let before = msgs(&report);
+    let g = ctx.get_address(&mut report, sp(), &defs, can_guess);
+    match g {
+        Ok(Some(ref a)) => { assert!(aligned || can_guess); assert!(a.maybe_into::<i64>() == Some(want), "get_address differs from eval_address"); }
+        Ok(None) => assert!(!aligned && !can_guess),
+        Err(()) => assert!(false, "get_address failed"),
+    }
+    assert!(msgs(&report) == before);
+    // output position = outp + position
+    assert!(ctx.get_output_position(&defs) == outp.map(|o| o + pos), "output position is not outp + bank position");
+    kani::cover!(r.is_ok() && !aligned, "guessed address inside a unit");
+    kani::cover!(r.is_err(), "misaligned position rejected");
+    kani::cover!(r.is_ok() && pos > 1000 && start < 0, "negative bank start");
+    std::mem::forget(r); std::mem::forget(g); std::mem::forget(defs); std::mem::forget(report);
+}
+modelled! {
+    #[kani::unwind(2)]
+    #[kani::stub(customasm::util::BigInt::checked_add, crate::model::st_add)]
+    fn c01_c_address_unit8() { address_of_position::<8>() }
+}
+modelled! {
+    #[kani::unwind(2)]
+    #[kani::stub(customasm::util::BigInt::checked_add, crate::model::st_add)]
+    fn c01_c_address_unit3() { address_of_position::<3>() }
+}
+modelled! {
+    #[kani::unwind(2)]
+    #[kani::stub(customasm::util::BigInt::checked_add, crate::model::st_add)]
+    fn c01_c_address_unit16() { address_of_position::<16>() }
+}
